@@ -10,18 +10,12 @@
 (* call the two FFT multipliers directly with every parameter pair the      *)
 (* selection can produce.                                                   *)
 (***************************************************************************)
-EXTENDS Naturals, Integers, Sequences, TLC
+EXTENDS Naturals, Integers, Sequences, TLC, HookPre
 CONSTANTS T61, T62, T71, T72, T81, T82, T91, T92, TA1, TA2,   \* FFT_TAB[depth-6][w-1]
           N1LO, N1HI, STEP, \* n1 ranges over N1LO, N1LO+STEP, ... <= N1HI
           FFTFULL, EMIT
 
 FFTTAB == <<<<T61, T62>>, <<T71, T72>>, <<T81, T82>>, <<T91, T92>>, <<TA1, TA2>>>>
-RECURSIVE Log2Ceil(_)
-Log2Ceil(x) == IF x <= 1 THEN 0 ELSE 1 + Log2Ceil((x + 1) \div 2)
-Pow2(k) == 2 ^ k
-Bits(n, w, depth) == (n * w - (depth + 1)) \div 2
-J(nl, bits) == (nl * 64 - 1) \div bits + 1
-
 RECURSIVE InitLoop(_, _, _, _)
 InitLoop(n1, n2, depth, w) ==            \* while (j1 + j2 - 1 > 4*n)
    LET n == Pow2(depth)  bits == Bits(n, w, depth) IN
@@ -49,17 +43,7 @@ Params(n1, n2) ==
        ELSE LET n == Pow2(d0)  bits == Bits(n, w0, d0) IN
             IF J(n1, bits) + J(n2, bits) - 1 <= 3 * n THEN <<d0 - 1, w0 * 3, "mfa">> ELSE <<d0, w0, "mfa">>
 
-Safe(n1, n2, depth, w, kind) ==
-   LET n == Pow2(depth)   bits == Bits(n, w, depth)
-       j1 == J(n1, bits)   j2 == J(n2, bits)
-       tr0 == IF j1 + j2 - 1 <= 2 * n THEN 2 * n + 1 ELSE j1 + j2 - 1
-       sq == Pow2(depth \div 2)
-       trunc == IF kind = "mfa" THEN 2 * sq * ((tr0 + 2 * sq - 1) \div (2 * sq)) ELSE 2 * ((tr0 + 1) \div 2)
-   IN  /\ depth >= 1 /\ w >= 1 /\ bits >= 1
-       /\ j1 <= 4 * n /\ j2 <= 4 * n /\ trunc <= 4 * n           \* fits the length-4n transform
-       /\ (n * w) % 64 = 0                                       \* coefficients are whole limbs
-       /\ 2 * bits + Log2Ceil(IF j1 < j2 THEN j1 ELSE j2) <= n * w   \* convolution sums < 2^(nw): no wrap mod 2^(nw)+1
-       /\ (j1 + j2 - 1) * bits + (n * w + 64) >= 0
+Safe(n1, n2, depth, w, kind) == FFTSafe(n1, n2, depth, w, kind)
 
 VARIABLES phase, n1, n2
 vars == <<phase, n1, n2>>
